@@ -447,7 +447,9 @@ func (r *chainRig) run(raw json.RawMessage) interface{} {
 	retries := 0
 	for {
 		resp, rb = r.roundTrip(&c)
-		if resp == nil || retries == 3 || (resp.Header.Get("X-Verif-Aborted") == "" && !(r.upstreamCount() > 0 && cutByUpstreamError(&c, rb))) {
+		// only a RELAYED answer can be cut this way: the upstream must have seen the request
+		cut := resp != nil && r.upstreamCount() > 0 && (resp.Header.Get("X-Verif-Aborted") != "" || cutByUpstreamError(&c, rb))
+		if !cut || retries == 3 {
 			break
 		}
 		retries++
